@@ -347,8 +347,8 @@ func (r *c18Runner) dump(t []string) string {
 		opts.Compression, opts.BatchSize, opts.ShardSize = codec, batch, shard
 		res, err := retriever.Dump(context.Background(), r.src.db, "fake", r.src.targets, opts)
 		if err != nil {
-			r.stats.Inc("dump.err." + errClass(err))
-			return "err " + errClass(err)
+			r.stats.Inc("dump.err." + retrErrClass(err))
+			return "err " + retrErrClass(err)
 		}
 		r.files = readTree(out)
 		r.codec, r.shard = codec, shard
@@ -456,15 +456,15 @@ func (r *c18Runner) load(t []string) string {
 	}
 	r.dst, r.back = NewFakeDB(), nil
 	return withTempDir(func(dir string) string {
-		if err := writeTree(dir, r.files); err != nil {
+		if err := writeFileTree(dir, r.files); err != nil {
 			return "err tempdir"
 		}
 		opts := retriever.DefaultLoadOptions(dir)
 		opts.BatchSize = batch
 		res, err := retriever.Load(context.Background(), r.dst, "fake", opts)
 		if err != nil {
-			r.stats.Inc("load.err." + errClass(err))
-			return "err " + errClass(err)
+			r.stats.Inc("load.err." + retrErrClass(err))
+			return "err " + retrErrClass(err)
 		}
 		r.stats.Inc("load.ok")
 		r.recoverCorrespondence()
@@ -548,14 +548,14 @@ func (r *c18Runner) verify(t []string) string {
 		return "bad-op"
 	}
 	return withTempDir(func(dir string) string {
-		if err := writeTree(dir, r.files); err != nil {
+		if err := writeFileTree(dir, r.files); err != nil {
 			return "err tempdir"
 		}
 		opts := retriever.DefaultVerifyOptions(dir)
 		opts.BatchSize = batch
 		res, err := retriever.Verify(context.Background(), r.dst, "fake", opts)
 		if err != nil {
-			c := errClass(err)
+			c := retrErrClass(err)
 			r.stats.Inc("verify." + c)
 			if c == "mismatch" {
 				return "mismatch"
